@@ -328,7 +328,9 @@ def run_case(case):
                      % (op, common.hx(t.root_hash)[:16], sorted(model.items()), want_root.hex()[:16]))
         if not model and t.root_hash != BLANK:
             res.fail("empty-root-not-blank", "trie is empty but the root is not the blank hash")
-        for p in probes:
+        # the order alternates, so that the key looked up LAST before an operation is the one looked up FIRST after it
+        # (a lookup cache that an operation forgets to clear: seeded change C12o-get-cache-not-cleared-by-delete-subtrie)
+        for p in (probes if opno % 2 == 0 else list(reversed(probes))):
             try:
                 g = t.get(p)
                 e = t.exists(p)
